@@ -276,7 +276,7 @@ def _report_e3(ctx, item, rep, minimise=True):
             continue
         seen.add(sig)
         wit_item, wit_rep = item, rep
-        if minimise and not sig.endswith(":timeout"):
+        if minimise:
             try:
                 wit_item, wit_rep = c04_e3.minimise(item, rep, sig)
             except Exception as exc:  # noqa: BLE001  minimisation is best effort
@@ -294,6 +294,16 @@ def _run_e3(ctx, items):
     nproc = SETTINGS[ctx.tier][4]
     t0 = time.time()
     reports = e3.pool_map(c04_e3.run_case, items, nproc=nproc)
+    # A build that did not finish in time on a loaded machine is not a verdict about C04: the case
+    # is run again alone with a generous timeout; what still times out is recorded, not reported.
+    for k, rep in enumerate(reports):
+        if rep.get("timeout"):
+            ctx.count("e3:timeouts_retried")
+            reports[k] = c04_e3.run_case(dict(items[k], timeout=300))
+            if reports[k].get("timeout"):
+                ctx.count("e3:timeouts_unresolved")
+                ctx.notes.append(f"E3 case seed={items[k]['seed']} {items[k]['flavour']} timed out twice: "
+                                 f"{reports[k]['timeout'][:300]}")
     ctx.stats["e3_s"] = round(ctx.stats.get("e3_s", 0) + time.time() - t0, 1)
     nbuilds = 0
     for item, rep in zip(items, reports):
